@@ -43,6 +43,51 @@ LOOKUP = re.compile(r"LookupClass<|LookupFunction<|LookupField<|GetFun<|GetField
 PROGRESS = re.compile(r"::(next|pop|pop_front|pop_back|pop_constr|next_back|nth|eat|remove|next_if|next_if_eq)$")
 
 
+NONCONSUMING = re.compile(r"::(peek|peek_mut|last|first|is_empty|len|get|front|back)$")
+
+
+def _recv_root(body, local, depth=0):
+    """(root local, field names) of the place a reference-typed local points to: `&mut *it` -> (it, ()); `&mut ahead` -> (ahead, ());
+    `&mut (*self).it` -> (self, ('it',))"""
+    if depth > 8:
+        return (local, ())
+    argc = getattr(body, "argc", None)
+    defs = [s_ for _, s_ in body.stmts() if s_.dst.local == local and not s_.dst.proj and s_.rv in ("Ref", "Use", "RawPtr", "Cast", "CopyForDeref") and s_.ops and s_.ops[0].place is not None]
+    if not defs:
+        return (local, ())
+    p = defs[0].ops[0].place
+    fields = tuple(x.split(":")[1] for x in p.proj if x.startswith(".") and len(x.split(":")) > 1)
+    if p.proj and p.proj[0] == "*":
+        r, f = _recv_root(body, p.local, depth + 1)
+        return (r, f + fields)
+    if defs[0].rv in ("Use", "Cast", "CopyForDeref") and not p.proj:
+        return _recv_root(body, p.local, depth + 1)
+    return (p.local, fields)
+
+
+def _handed_over(body, term, driver):
+    """a closure/fn call one of whose arguments (directly or inside the argument tuple) is the driver's owner"""
+    for a in term.args:
+        if a.place is None:
+            continue
+        if _same_root(_recv_root(body, a.place.local), driver):
+            return True
+        for _, s_ in body.stmts():
+            if s_.dst.local == a.place.local and s_.rv == "Aggregate":
+                for o in s_.ops:
+                    if o.place is not None and _same_root(_recv_root(body, o.place.local), driver):
+                        return True
+    return False
+
+
+def _same_root(a, b):
+    return a[0] == b[0] and (a[1][:len(b[1])] == b[1] or b[1][:len(a[1])] == a[1])
+
+
+def _root_str(r):
+    return f"_{r[0]}" + "".join("." + f for f in r[1])
+
+
 def short_callee(c):
     c = re.sub(r"<[^<>]*>", "", c)
     c = re.sub(r"<[^<>]*>", "", c)
@@ -207,6 +252,10 @@ def run(chk, facts):
         elif lookups:
             # recursion that follows names through a table: needs the acyclicity validation
             prot = _acyclic_validation(mir)
+            same_key, key_why = _acyclic_same_key(mir)
+            if not any(o["key"] == "R-C03-2|acyclic-guard:same-key-as-lookup" for o in chk.obligations):
+              chk.ob("R-C03-2", "acyclic-guard:same-key-as-lookup", same_key, f"acyclicity validation: {key_why}" if same_key else
+                     f"acyclicity validation: {key_why} - a cycle among such classes is not reported and the class lookup recurses until the stack overflows")
             ok = prot and rv is not None and rv["class"] == "table-lookup"
             chk.ob("R-C03-2", f"scc:{key}", ok,
                    f"recursion {names[:3]} follows names through the class table ({len(lookups)} lookups); "
@@ -234,6 +283,55 @@ def run(chk, facts):
             chk.ob("R-C03-3", f"loop:{owner}", r is not None,
                    f"loop in {owner} has no iterator/pop/eat call: " + (f"reviewed: {r['reason']}" if r else "nothing shows that an iteration makes progress"),
                    f"{b.file}:{b.bbs[h].term.line}")
+    # loops driven by a *non-consuming* test (`while let Some(c) = it.peek()`): the header does not advance, so every path around
+    # the loop must pass a consuming call on the same iterator (or leave the loop). A look-ahead on a clone does not count.
+    n_peek = 0
+    for b in mir.fns.values():
+        for h, blks in b.natural_loops():
+            t = b.bbs[h].term
+            if t.k != "call" or not NONCONSUMING.search(t.callee) or not t.args or t.args[0].place is None:
+                continue
+            if "MultiPeek" in t.callee:
+                continue    # itertools::MultiPeek::peek advances its own cursor on every call: a consuming test
+            n_peek += 1
+            driver = _recv_root(b, t.args[0].place.local)
+            consuming = set()
+            for i in blks:
+                ti = b.bbs[i].term
+                if ti.k != "call":
+                    continue
+                if PROGRESS.search(ti.callee) and ti.args and ti.args[0].place is not None and _same_root(_recv_root(b, ti.args[0].place.local), driver):
+                    consuming.add(i)
+                elif re.search(r"::(eat_if)$", ti.callee) and ti.args and ti.args[0].place is not None and _same_root(_recv_root(b, ti.args[0].place.local), driver):
+                    consuming.add(i)     # consumes when the token matches - which is what the loop has just tested
+                elif re.search(r"::(call|call_mut|call_once)$", ti.callee) and _handed_over(b, ti, driver):
+                    consuming.add(i)     # a callback that is handed the iterator: R-C03-3 callbacks (greatest fixpoint) shows it consumes
+            # is the header reachable from its in-loop successors without a consuming block?
+            seen, stack, path_back = set(), [x for x in b.succs(h) if x in blks], None
+            prev = {x: h for x in stack}
+            while stack:
+                x = stack.pop()
+                if x in seen or b.bbs[x].cleanup:
+                    continue
+                seen.add(x)
+                if x in consuming:
+                    continue
+                for sx in b.succs(x):
+                    if sx == h:
+                        path_back = x
+                        stack = []
+                        break
+                    if sx in blks and sx not in seen:
+                        prev.setdefault(sx, x)
+                        stack.append(sx)
+            owner = b.parent if b.kind == "Closure" else b.path
+            line = b.bbs[path_back].term.line if path_back is not None else b.bbs[h].term.line
+            chk.ob("R-C03-3", f"peek-loop:{owner}|{_root_str(driver)}|{len([1 for hh, _ in b.natural_loops() if hh < h and NONCONSUMING.search(getattr(b.bbs[hh].term, 'callee', '') or '')])}",
+                   path_back is None,
+                   f"{owner}: every path around the `{t.callee.split('::')[-1]}`-driven loop consumes from `{_root_str(driver)}` ({len(consuming)} consuming block(s))" if path_back is None else
+                   f"{owner}: the loop tests `{_root_str(driver)}.{t.callee.split('::')[-1]}()` without consuming, and there is a path back to the test that consumes nothing "
+                   f"from that iterator (a look-ahead on a clone does not count): the same character is looked at for ever", f"{b.file}:{line}")
+    chk.floor("R-C03-3", n_peek, 5, "loops driven by a non-consuming test")
     chk.ob("R-C03-3", "loops", True, f"{n_loops} natural loops examined")
     chk.floor("R-C03-3", n_loops, 60, "natural loops")
     _callbacks(chk, facts)
@@ -294,6 +392,36 @@ def run(chk, facts):
     chk.assume("inputs are smaller than 2 GiB and nest at most 500 levels deep (owned-tree recursion depth is linear in nesting; counters cannot overflow)")
     chk.assume("arithmetic asserts exist in debug builds; release builds wrap instead - the census covers the debug semantics")
     chk.notes.append(f"C03: {total + n_auto} panic obligations, {n_scc} recursive SCCs, {n_loops} loops, {n_casts} signed->unsigned casts.")
+
+
+def _acyclic_same_key(mir):
+    """the validation must follow the class table by the key the recursion follows it by. `Context::class` finds a class by its
+    bare name (String == String); a guard that compares generic-sensitive names (StringName / TrueName / Name equality also
+    compares the generic arguments) misses `class Node[T]: Tree[T]` / `class Tree[E]: Node[E]`.
+    -> (ok, description)"""
+    def eq_types(pred):
+        out = []
+        for b in mir.fns.values():
+            owner = b.parent if b.kind == "Closure" else b.path
+            if pred(owner or ""):
+                for bb, t in b.calls():
+                    if re.search(r"::(eq|ne)$", t.callee):
+                        out.append(tuple(re.sub(r"^&+", "", x) for x in t.argt))
+        return out
+    guard = eq_types(lambda o: o.endswith("check::context::check_inheritance_acyclic"))
+    lookup = eq_types(lambda o: "LookupClass<&check::name::string_name::StringName, check::context::clss::Class> for check::context::Context>::class" in o)
+    bare = ("std::string::String", "str")
+    def is_bare(ts):
+        return all(any(x == t or x.endswith(t) for t in bare) for x in ts)
+    if not guard or not lookup:
+        return False, f"comparisons not found (guard {len(guard)}, lookup {len(lookup)})"
+    bad = [ts for ts in guard if not is_bare(ts)]
+    lk_bare = any(is_bare(ts) for ts in lookup)
+    if bad:
+        return False, f"the cycle guard compares {bad[0]}, the class lookup compares bare names: generics make equal classes look different to the guard"
+    if not lk_bare:
+        return False, "the class lookup no longer compares bare names; the guard does"
+    return True, f"guard and lookup both compare bare names ({len(guard)} + {len(lookup)} comparisons)"
 
 
 def _acyclic_validation(mir):
